@@ -138,6 +138,26 @@ Proof.
       exists n'. split; [|exact En]. rewrite <- Ka. constructor. rewrite <- Ea. exact Had.
 Qed.
 
+Lemma find_app_last {A} (f : A -> bool) l x :
+  find f (l ++ [x]) = match find f l with Some y => Some y | None => if f x then Some x else None end.
+Proof. induction l as [|y l IH]; cbn; [reflexivity|]. destruct (f y); [reflexivity|exact IH]. Qed.
+
+Definition nil_flag (atts : list (str * str)) (dflt : bool) : bool :=
+  match find (fun kv => str_eqb (fst kv) qn_xsi_nil) (rev atts) with
+  | Some (_, v) => is_nil_true v
+  | None => dflt
+  end.
+
+Lemma build_attributes_nil cv ns atts : forall nilb attrs,
+  fst (build_attributes cv atts ns (nilb, attrs)) = nil_flag atts nilb.
+Proof.
+  unfold nil_flag. induction atts as [|[k v] r IH]; intros nilb attrs; cbn [build_attributes rev]; [reflexivity|].
+  rewrite find_app_last. cbn [fst].
+  destruct (str_eqb k qn_xsi_nil) eqn:E.
+  - rewrite IH. destruct (find _ (rev r)) as [[k' v']|]; reflexivity.
+  - rewrite IH. destruct (find _ (rev r)) as [[k' v']|]; reflexivity.
+Qed.
+
 Section Loop.
   Variables (cv : sconv) (ns : option str) (groups : list (nat * nat)) (rec : tree -> klass).
   Fixpoint elements_loop (i : nat) (ks : list tree) (acc : list attr * list klass * bool) {struct ks}
@@ -214,20 +234,22 @@ Theorem build_class_spec cv n p :
       K (class_qname p n) (class_ns p n) mixed nilb attrs
         (map (fun k => build_class cv k (class_ns p n)) (filter (fun k => named k && has_content k) (t_kids n)))
     /\ added [] (keys (node_part_keys (class_ns p n) n)) attrs
-    /\ (node_mixed n = true -> mixed = true).
+    /\ (node_mixed n = true -> mixed = true)
+    /\ nilb = nil_flag (t_atts n) false.
 Proof.
   destruct n as [qn atts text tail kids]. rewrite build_class_unfold.
   unfold class_qname, class_ns, node_part_keys. cbn [t_qn t_atts t_kids t_text fst snd].
   destruct (split_qname qn) as [ns0 name]. cbn [fst snd]. set (ns := select_namespace ns0 p tag_ELEMENT).
   destruct (build_attributes_added cv ns atts false []) as [nilb [A1 En]].
-  destruct (build_attributes cv atts ns (false, [])) as [nilb0 attrs1]. cbn [fst snd] in A1, En. subst nilb0.
+  pose proof (build_attributes_nil cv ns atts false []) as Enil.
+  destruct (build_attributes cv atts ns (false, [])) as [nilb0 attrs1]. cbn [fst snd] in A1, En, Enil. subst nilb0.
   pose proof (elements_loop_spec cv ns (sequential_groups (map t_qn kids)) (fun k => build_class cv k ns) kids O attrs1 [] false) as L.
   cbv zeta in L. destruct (elements_loop cv ns (sequential_groups (map t_qn kids)) (fun k => build_class cv k ns) O kids (attrs1, [], false))
     as [[attrs2 inner] mixed1]. cbn [fst snd] in L. destruct L as [A2 [Ei Em]]. cbn [app orb] in Ei, Em.
   rewrite !keys_app, !keys_map_key. fold (attr_parts atts).
   destruct (truthy text) eqn:TT.
   - destruct (build_attr_added attrs2 text_attr_name (build_attr_type_str cv text_attr_name text) None tag_SIMPLE_TYPE 0 false) as [a [Ea Ka]].
-    eexists _, nilb, _. split; [rewrite Ei; reflexivity|]. split.
+    eexists _, nilb, _. split; [rewrite Ei; reflexivity|]. split; [|split].
     + eapply added_app; [exact A1|]. eapply added_app; [exact A2|]. rewrite Ea. cbn [keys map].
       replace (key (key_attr tag_SIMPLE_TYPE text_attr_name None)) with (key a). apply added_one.
     + unfold node_mixed. cbn [t_kids t_text]. rewrite TT, Em. cbn [andb].
@@ -239,9 +261,11 @@ Proof.
         apply in_map_iff. exists k. split; [reflexivity|]. apply filter_In. auto. }
       apply in_map_iff in Hin as [x [Kx Hx]]. apply existsb_exists. exists x. split; [exact Hx|].
       unfold key in Kx. inversion Kx as [[T1 T2 T3]]. rewrite T1. unfold part_key. destruct (split_qname (t_qn k)). cbn. first [reflexivity | apply str_eqb_refl].
-  - eexists _, nilb, _. split; [rewrite Ei; reflexivity|]. split.
+    + exact Enil.
+  - eexists _, nilb, _. split; [rewrite Ei; reflexivity|]. split; [|split].
     + cbn [keys map]. rewrite app_nil_r. eapply added_app; [exact A1|exact A2].
     + unfold node_mixed. cbn [t_kids t_text]. rewrite TT, Em. cbn [andb]. rewrite orb_false_r. auto.
+    + exact Enil.
 Qed.
 
 Definition node_class (cv : sconv) (p : option str) (n : tree) : fclass :=
@@ -318,7 +342,7 @@ Lemma flatten_nodes cv : forall n p (L : list fclass),
 Proof.
   induction n as [qn atts text tail kids IH] using tree_ind'. intros p L HL.
   set (n := T qn atts text tail kids) in *.
-  destruct (build_class_spec cv n p) as [mixed [nilb [attrs [E [_ _]]]]].
+  destruct (build_class_spec cv n p) as [mixed [nilb [attrs [E _]]]].
   cbn [Forall_nodes]. split.
   - apply HL. unfold node_class. fold n. rewrite E, flatten_unfold. apply in_or_app. right. left. reflexivity.
   - fold n. set (cns := class_ns p n) in *. rewrite E, flatten_unfold in HL. cbn [t_kids] in *.
@@ -335,7 +359,7 @@ Lemma flatten_from cv : forall n p x, In x (flatten (build_class cv n p)) -> exi
 Proof.
   induction n as [qn atts text tail kids IH] using tree_ind'. intros p x Hx.
   set (n := T qn atts text tail kids) in *.
-  destruct (build_class_spec cv n p) as [mixed [nilb [attrs [E [_ _]]]]].
+  destruct (build_class_spec cv n p) as [mixed [nilb [attrs [E _]]]].
   rewrite E, flatten_unfold in Hx. apply in_app_iff in Hx as [Hx|[<-|[]]].
   - apply flatten_rev_from in Hx as [c [Hc Hxc]]. apply in_map_iff in Hc as [k [<- Hk]].
     apply filter_In in Hk as [Hk _]. cbn [t_kids] in Hk. rewrite Forall_forall in IH. eapply IH; eauto.
